@@ -103,7 +103,10 @@ Fixpoint join_with (sep : bytes) (l : list bytes) : bytes :=
   | a :: r => a ++ sep ++ join_with sep r
   end.
 
-(* ---- white space (ASCII; Unicode spaces are outside every stated domain, see DESIGN) ---- *)
+(* ---- white space.  [is_space], [trim_left], [trim_space], [fields]: ASCII white space only
+   (what skipWhiteSpace and the judges' own line reading use).  [trim_space_go] below is
+   strings.TrimSpace proper, which also strips the UTF-8 encodings of the other Unicode
+   White_Space runes. ---- *)
 Definition is_space (c : ascii) : bool :=
   let n := N_of_ascii c in
   (N.eqb n 9 || N.eqb n 10 || N.eqb n 11 || N.eqb n 12 || N.eqb n 13 || N.eqb n 32)%bool.
@@ -116,7 +119,84 @@ Fixpoint trim_left (s : bytes) : bytes :=
 Definition trim_right (s : bytes) : bytes := rev (trim_left (rev s)).
 Definition trim_space (s : bytes) : bytes := trim_right (trim_left s).
 
-(* strings.Fields for ASCII white space *)
+(* ---- strings.TrimSpace.  Go strips, from both ends, the runes r with unicode.IsSpace(r):
+   the six ASCII ones and U+0085, U+00A0, U+1680, U+2000..U+200A, U+2028, U+2029, U+202F,
+   U+205F, U+3000.  Runes are decoded with utf8.DecodeRuneInString / DecodeLastRuneInString;
+   a byte that does not start (resp. end) a valid encoding decodes to RuneError (width 1),
+   which is not a space, so invalid bytes are never stripped.  The encodings of the
+   non-ASCII spaces are two or three bytes long and begin with a UTF-8 start byte followed by
+   continuation bytes only, hence "the rune decoded at the left (right) end is one of these
+   spaces" is exactly "the string begins (ends) with one of these byte sequences".
+   TrimSpace = TrimRightFunc(TrimLeftFunc(s, IsSpace), IsSpace) (its ASCII fast path computes the
+   same thing). ---- *)
+Definition is_ascii (c : ascii) : bool := N.ltb (N_of_ascii c) 128.
+(* U+0085 = C2 85, U+00A0 = C2 A0 *)
+Definition usp2 (a b : ascii) : bool :=
+  let x := N_of_ascii a in let y := N_of_ascii b in
+  (N.eqb x 194 && (N.eqb y 133 || N.eqb y 160))%bool.
+(* U+1680 = E1 9A 80; U+2000..U+200A = E2 80 80 .. E2 80 8A; U+2028 = E2 80 A8; U+2029 = E2 80 A9;
+   U+202F = E2 80 AF; U+205F = E2 81 9F; U+3000 = E3 80 80 *)
+Definition usp3 (a b c : ascii) : bool :=
+  let x := N_of_ascii a in let y := N_of_ascii b in let z := N_of_ascii c in
+  ((N.eqb x 225 && N.eqb y 154 && N.eqb z 128)
+   || (N.eqb x 226 && N.eqb y 128 &&
+       ((N.leb 128 z && N.leb z 138) || N.eqb z 168 || N.eqb z 169 || N.eqb z 175))
+   || (N.eqb x 226 && N.eqb y 129 && N.eqb z 159)
+   || (N.eqb x 227 && N.eqb y 128 && N.eqb z 128))%bool.
+(* the same sequences read backwards (for the right end, on the reversed string) *)
+Definition usp2r (a b : ascii) : bool := usp2 b a.
+Definition usp3r (a b c : ascii) : bool := usp3 c b a.
+
+(* [s] begins with a two-byte sequence [p2] or a three-byte sequence [p3] *)
+Definition uprefix (p2 : ascii -> ascii -> bool) (p3 : ascii -> ascii -> ascii -> bool) (s : bytes) : bool :=
+  match s with
+  | c :: c2 :: r2 => (p2 c c2 || match r2 with c3 :: _ => p3 c c2 c3 | [] => false end)%bool
+  | _ => false
+  end.
+Definition starts_with_uspace (s : bytes) : bool := uprefix usp2 usp3 s.
+Definition ends_with_uspace (s : bytes) : bool := uprefix usp2r usp3r (rev s).
+
+(* strip ASCII white space and [p2]/[p3] sequences from the left until neither applies
+   (structurally recursive: [r2], [r3] are sub-terms of [s]) *)
+Fixpoint trim_left_u (p2 : ascii -> ascii -> bool) (p3 : ascii -> ascii -> ascii -> bool) (s : bytes) : bytes :=
+  match s with
+  | [] => []
+  | c :: r =>
+      if is_space c then trim_left_u p2 p3 r
+      else match r with
+           | [] => s
+           | c2 :: r2 =>
+               if p2 c c2 then trim_left_u p2 p3 r2
+               else match r2 with
+                    | [] => s
+                    | c3 :: r3 => if p3 c c2 c3 then trim_left_u p2 p3 r3 else s
+                    end
+           end
+  end.
+Definition trim_left_go (s : bytes) : bytes := trim_left_u usp2 usp3 s.       (* TrimLeftFunc(s, unicode.IsSpace) *)
+Definition trim_left_go_r (s : bytes) : bytes := trim_left_u usp2r usp3r s.   (* the right end, on the reversed string *)
+Definition trim_right_go (s : bytes) : bytes := rev (trim_left_go_r (rev s)). (* TrimRightFunc(s, unicode.IsSpace) *)
+Definition trim_space_go (s : bytes) : bytes := trim_right_go (trim_left_go s).
+
+(* strings.Fields for ASCII white space.
+   TODO (known model gap, strings.Fields).  Go's strings.Fields splits around runs of
+   unicode.IsSpace runes, i.e. also around the UTF-8 encodings listed at [trim_space_go] (the string
+   is decoded left to right with `range`; an invalid byte is a one-byte rune that is not a space).
+   [fields] splits on the six ASCII blanks only.  Callers: Message.parse_request_line,
+   Message.parse_status_line (message.go:160, 173), Hdr.parse_via_param (via.go:176, the text before
+   the first ';'), Hdr.parse_cseq (cseq.go:18).  Model and code differ e.g. on the CSeq value
+   "1" C2 A0 "INVITE" (Go: two fields, decoded; model: one field, Err) and on a Request-URI that
+   contains C2 A0 (Go: four fields, rejected; model: three, accepted).  A faithful [fields_go]:
+   scan left to right; at each position an ASCII blank, a [usp2] pair or a [usp3] triple is a
+   separator (skip 1 / 2 / 3 bytes), any other byte joins the current field (same structural
+   recursion as [trim_left_u]).  Using it requires: SpecC14.wf_via / wf_cseq to exclude
+   Unicode-space sequences INSIDE name, version, transport, host and method ([safe_char] allows
+   bytes >= 128); the judges SpecProxy.j_via / single_blanks / start-line readers, SpecProxy2 (CSeq
+   method, status code) and SpecRx.words_aux to split the same way; the start-line hypotheses of
+   C01_judge_bridge_request / _response (stated with [fields]) restated; and the repair of
+   proofs/C14_via.v (fields_two, via_head_fields, rp_cseq_fields), C01.v (start-line bridge),
+   C08.v, C11.v.  No generator produces a Unicode space in a start line, a Via sent-protocol /
+   sent-by or a CSeq value. *)
 Fixpoint fields_aux (s : bytes) (cur : bytes) : list bytes :=
   match s with
   | [] => match cur with [] => [] | _ => [rev cur] end
